@@ -25,8 +25,8 @@ theorem gen_eq (dim : Dim) (nvars : Nat) (sp : SepPair) (id2ix : Nat → Nat) (r
   unfold AdaptaVerif.Gen.SepGenK.generateSeparationConstraint SepPair.generateSeparationConstraint genCon relabel sizeOf
   simp only [toRat_two]
   cases dim
-  · cases hst : sp.xst <;> cases hsb : sp.xgap.signbit <;> cases hgt : sp.xgt <;> simp
-  · cases hst : sp.yst <;> cases hsb : sp.ygap.signbit <;> cases hgt : sp.ygt <;> simp
+  · cases hst : sp.xst <;> cases hsb : sp.xgap.signbit <;> cases hgt : sp.xgt <;> simp [Rat.add_assoc]
+  · cases hst : sp.yst <;> cases hsb : sp.ygap.signbit <;> cases hgt : sp.ygt <;> simp [Rat.add_assoc]
 
 /-- the only obligations are the two `vs[·]` accesses: both variable indices must exist -/
 theorem gen_pre_true (dim : Dim) (nvars : Nat) (sp : SepPair) (id2ix : Nat → Nat) (rsW rsH : Nat → Rat) (extra : Rat)
